@@ -96,6 +96,9 @@ public:
     constexpr tuple_impl(tuple_impl const&)     = default;
     constexpr tuple_impl(tuple_impl&&) noexcept = default;
 
+    constexpr auto operator=(tuple_impl const&) -> tuple_impl& = default;
+    constexpr auto operator=(tuple_impl&&) -> tuple_impl&      = default;
+
     using tuple_leaf<Idx, Ts>::get_type...;
     using tuple_leaf<Idx, Ts>::get_impl...;
 
@@ -183,6 +186,9 @@ public:
 
     constexpr tuple(tuple const&)     = default;
     constexpr tuple(tuple&&) noexcept = default;
+
+    constexpr auto operator=(tuple const&) -> tuple& = default;
+    constexpr auto operator=(tuple&&) -> tuple&      = default;
 
     constexpr auto swap(tuple& other) noexcept((is_nothrow_swappable_v<Ts> && ...)) -> void { _impl.swap(other._impl); }
 };
